@@ -158,7 +158,7 @@ def parse_show(s):
 def model_streams(ctx, iters, name="c08"):
     """[(tag, length, bytes-or-md5hex)] for the specs (as iterated by the implementation)"""
     exprs = ["show (enc_top md5_hex %s)" % g.coq_value(s) for s in iters]
-    k = min(common.NCPU, max(1, len(exprs)))
+    k = max(1, min(4 * common.NCPU, len(exprs) // 60 + 1))     # many small shards: short processes, small pipes
     order = [i for r in range(k) for i in range(r, len(exprs), k)]       # interleave: balance the shards
     shard = (len(exprs) + k - 1) // k
     vals = ctx.coq_eval_lines(REQ, DEFS, [exprs[i] for i in order], name=name, shard=max(shard, 1), timeout=1500)
@@ -283,7 +283,7 @@ def run(ctx):
             disagreements.append({"value_as_iterated": it, "impl_stream_hex": st[:600],
                                   "model": {"tag": mo[0], "len": mo[1], "bytes_or_md5": mo[2][:300]}})
     if (disagreements or const_bad) and not viol:
-        hit = search_failing(ctx, 3000 if quick else 20000)
+        hit = search_failing(ctx, 3000 if quick else 12000)
         first = disagreements[0] if disagreements else {"constants": const_bad}
         if hit:
             ctx.violation(hit[0], dict(hit[1], first_disagreement=first), True)
